@@ -160,7 +160,14 @@ impl Storage {
             "Recovering from wal checkpoint {}",
             earliest_uncommited_wal_id
         );
-        let wal_files = writer.list(wal_dir).unwrap();
+        // A crash while a segment is being written leaves its temporary file (`<id>..INCOMPLETE`)
+        // behind. It belongs to a request that was never acknowledged and must not be replayed.
+        let wal_files: Vec<_> = writer
+            .list(wal_dir)
+            .unwrap()
+            .into_iter()
+            .filter(|path| path.extension().map(|ext| ext == "wal").unwrap_or(false))
+            .collect();
         let num_wal_files = wal_files.len();
         log::info!("Found {} wal segments", wal_files.len());
 
